@@ -1,25 +1,27 @@
 (* C11 correspondence.
-   CState : the client's view, the server flight read from the server's plaintext messages (EncryptedExtensions
+   CState : whether the tree has the C18 key-share repair (KeySharePrivateKeys.ExtraEcdhe exists), the client's view, the
+            curves of the retained key-share private keys (KeyShare.mkShape ecdhe extra mlkem mlkem_ecdhe), the server flight read from the server's plaintext messages (EncryptedExtensions
             ALPN = the protocol the server reports), and both observed ConnectionStates: the model's client_run
             must complete with exactly the client's values, and server_state must give exactly the server's.
    CName  : hostnameInSNI(Config.ServerName), uconn.Extensions as sni_items (names already passed through
             hostnameInSNI by harness/extcoq's verbatim copy, so host = identity here), and the two reported
             server names: the model of the REPAIRED client (fixes/C11-sni-reported-name.diff) and of the server. *)
 From UV Require Export Base.Common Model.Negotiate Model.Transcript.
+From UV Require Model.Complete.
 Open Scope N_scope.
 
 Record obs_state := mkObsState { o_vers : N; o_suite : N; o_group : N; o_alpn : bytes; o_resumed : bool }.
 
 Inductive case :=
-| CState (v : client_view) (fl : flight) (c s : obs_state)
+| CState (fixed : bool) (v : client_view) (ks : KeyShare.kshape) (fl : flight) (c s : obs_state)
 | CName (cfg : bytes) (exts : list sni_item) (client server : bytes).
 
 Definition idb (b : bytes) : bytes := b.
 
 Definition check (c : case) : bool :=
   match c with
-  | CState v fl c s =>
-      match client_run v fl with
+  | CState fixed v ks fl c s =>
+      match Complete.client_run10 fixed env_fixed v ks fl with
       | Complete st =>
           (cs_vers st =? o_vers c) && (cs_suite st =? o_suite c) && (cs_group st =? o_group c)
           && bytes_eqb (cs_alpn st) (o_alpn c) && Bool.eqb (cs_psk st) (o_resumed c)
